@@ -1040,7 +1040,7 @@ class ParsersWorld:
                       "/dialects/", "/utils.py", "/ddl_parser.py", "/parser.py"]
     FIRST_USE_LINES = sorted(set(list(range(1, 25)) + list(range(24, 121, 4)) + list(range(120, 401, 16))))
 
-    def sweep_first_use(self, seed, part, nparts):
+    def sweep_first_use(self, seed, part, nparts, full=False):
         """Fault enumeration: the FIRST run() of a process is interrupted at the n-th line it executes inside one part of
         the library (n = 1..24, then every 4th up to 120, every 16th up to 400, per part; alternately as a cancellation and as a failing allocation), then the same object
         runs again and a fresh object parses another script twice.  Lazily built process-wide structures (per-class
@@ -1048,7 +1048,10 @@ class ParsersWorld:
         stays half-built for the rest of the process."""
         import shrink
         c = [it for it in core.corpus() if 150 < len(it["ddl"]) < 2500 and "create table" in it["ddl"].lower()]
-        cells = [(f, n) for f in self.FIRST_USE_FOCI for n in self.FIRST_USE_LINES]
+        # the output stage (where per-class structures are built lazily) gets the whole range in both tiers; the parsing
+        # side only its first 24 lines in the quick tier
+        cells = [(f, n) for f in self.FIRST_USE_FOCI for n in self.FIRST_USE_LINES
+                 if full or f.startswith("/output/") or n <= 24]
         out = {"status": "ok", "k": "first-use", "orderings": 0, "keys": [], "violating": [],
                "stats": {"first_use_cells": 0, "first_use_fired": 0}}
         for idx, (focus, n) in enumerate(cells):
